@@ -5,7 +5,7 @@ import json,re
 m=json.load(open('/verif/MANIFEST.json'))
 src=open('/verif/checker/properties.go').read()
 a,b=src.split('var propertyScope',1)
-pr={x.group(1):re.findall(r'"([A-Z]+\d+(?::[A-Za-z.\-]+)?)"',x.group(2)) for x in re.finditer(r'"(C\d\d)":\s*\{([^}]*)\}',a)}
+pr={x.group(1):re.findall(r'"([A-Z]+\d+(?::[^"]+)?)"',x.group(2)) for x in re.finditer(r'"(C\d\d)":\s*\{([^}]*)\}',a)}
 scope={x.group(1):x.group(2) for x in re.finditer(r'"(C\d\d)":\s*"((?:[^"\\]|\\.)*)"',b)}
 fam={'LK':'lock discipline (who-may-call, must-pass-through and typestate of the flock primitive on the SSA CFG and module call graph)',
 'WR':'write-protocol must-pass-through, error-propagation and dead-error analysis with effect classification of os/syscall calls by path provenance (LOG/LOCK/OTHER)',
